@@ -15,12 +15,14 @@ import (
 	"sort"
 	"strings"
 	"sync"
+	"sync/atomic"
 	"testing"
 	"time"
 
 	quic "github.com/refraction-networking/uquic"
 	"github.com/refraction-networking/uquic/internal/verifmc/explore"
 	"github.com/refraction-networking/uquic/internal/verifmc/sim"
+	"github.com/refraction-networking/uquic/internal/verifmc/wiremon"
 )
 
 // ---- scripted scenarios -------------------------------------------------------------
@@ -163,6 +165,10 @@ type c01Outcome struct {
 	class      string
 	datagrams  [2]int
 	transcript []string
+	opened     int // packets the wire monitor opened / could not open
+	notOpened  int
+	log        []sim.Event
+	keylog     []string
 }
 
 // c01Run executes one configuration inside a fresh bubble.
@@ -429,6 +435,13 @@ func c01Run(t *testing.T, cfg c01Config) c01Outcome {
 		<-cliDone
 		<-srvDone
 		dgWG.Wait()
+		// ---- passive wire monitor: every datagram either side sent, opened with independent crypto
+		mon := wiremon.Analyze(w.Router.FullLog(), w.KeyLog.Lines(), wiremon.Params{})
+		for _, f := range mon.Findings {
+			res.fail(f.Key, "%s", f.What)
+		}
+		out.opened, out.notOpened = mon.Opened, mon.NotOpened
+		out.log, out.keylog = w.Router.FullLog(), w.KeyLog.Lines()
 		out.datagrams = [2]int{w.Router.Count(sim.C2S), w.Router.Count(sim.S2C)}
 		out.transcript = w.Router.Transcript()
 		out.class = fmt.Sprintf("complete=%v c2s~%d s2c~%d", complete, out.datagrams[0]/4*4, out.datagrams[1]/4*4)
@@ -450,9 +463,12 @@ func c01Part(t *testing.T, name string, mk func(e explore.Env) (cfgs []c01Config
 		Name: name,
 		Run: func(e explore.Env) *explore.Report {
 			cfgs, rule := mk(e)
+			var opened, notOpened atomic.Int64
 			rep := explore.RunCases(e, len(cfgs), 1, false, func(i int) explore.CaseResult {
 				explore.MarkCurrent(e, name, cfgs[i])
 				o := c01Run(t, cfgs[i])
+				opened.Add(int64(o.opened))
+				notOpened.Add(int64(o.notOpened))
 				cr := explore.CaseResult{Outcome: cfgs[i].Kind + " " + o.class, Execs: 1, Trans: int64(o.datagrams[0] + o.datagrams[1]), Replay: cfgs[i]}
 				if len(o.fails) > 0 {
 					cr.Fail = o.fails[0]
@@ -466,6 +482,9 @@ func c01Part(t *testing.T, name string, mk func(e explore.Env) (cfgs []c01Config
 				rep.Samples = []any{cfgs[0].String(), cfgs[len(cfgs)/2].String(), cfgs[len(cfgs)-1].String()}
 			}
 			rep.Bound = rule
+			// packets of the real executions that the independent wire monitor opened and judged
+			rep.Traces = opened.Load()
+			rep.Samples = append(rep.Samples, fmt.Sprintf("wire monitor: %d packets opened with independent crypto and checked, %d not opened (stateless resets, packets of phantom connections)", opened.Load(), notOpened.Load()))
 			return rep
 		},
 		Replay: func(e explore.Env, raw json.RawMessage) *explore.Violation {
@@ -486,16 +505,71 @@ func c01Part(t *testing.T, name string, mk func(e explore.Env) (cfgs []c01Config
 func c01Baseline(t *testing.T, cfg c01Config) [2]int {
 	cfg.Faults = nil
 	o := c01Run(t, cfg)
-	if len(o.fails) > 0 {
-		t.Fatalf("fault-free baseline of %v fails: %s: %s", cfg, o.fails[0].Key, o.fails[0].What)
-	}
+	// (a failing fault-free run is not a harness error: the fault-free configuration is part of
+	// the enumeration and is reported there as a violation)
 	return o.datagrams
+}
+
+// c01MonitorSelfTest shows that the passive wire monitor is not vacuous: the datagram log of a
+// real fault-free run is tampered with in ways that need no re-encryption, and the monitor
+// must report each tampering.
+func c01MonitorSelfTest(t *testing.T) explore.Part {
+	return explore.Part{Name: "wire-monitor-selftest", Run: func(e explore.Env) *explore.Report {
+		rep := &explore.Report{Level: "fault_enumeration", Exhaustive: true}
+		if e.Shard != 0 {
+			return rep
+		}
+		for _, kind := range []string{"plain", "chrome115"} {
+			o := c01Run(t, c01Config{Scenario: 0, Kind: kind, Version: 1, Seed: uint64(e.Seed) + 1})
+			has := func(r *wiremon.Report, prefix string) bool {
+				for _, f := range r.Findings {
+					if strings.HasPrefix(f.Key, prefix) {
+						return true
+					}
+				}
+				return false
+			}
+			clean := wiremon.Analyze(o.log, o.keylog, wiremon.Params{})
+			explore.Must(len(clean.Findings) == 0 && clean.Opened > 10, "%s: untampered log: findings %v, %d packets opened", kind, clean.Findings, clean.Opened)
+			// (1) the last short-header datagram of the client is sent a second time: packet number reuse
+			// (2) a server datagram that the client acknowledged is marked as dropped: ACK of a packet not received
+			// (3) no key log: handshake and 1-RTT packets no longer open, Initial packets still do
+			last, firstS2C := -1, -1
+			for i, ev := range o.log {
+				if ev.Dir == sim.C2S && len(ev.Data) > 0 && ev.Data[0]&0x80 == 0 && i < len(o.log)-4 {
+					last = i
+				}
+				if ev.Dir == sim.S2C && firstS2C < 0 {
+					firstS2C = i
+				}
+			}
+			explore.Must(last >= 0 && firstS2C >= 0, "%s: no short-header client datagram in the log", kind)
+			t1 := append(append([]sim.Event{}, o.log...), o.log[last])
+			t1[len(t1)-1].T = o.log[len(o.log)-1].T + time.Millisecond
+			r1 := wiremon.Analyze(t1, o.keylog, wiremon.Params{})
+			explore.Must(has(r1, "wire:packet-number-not-increasing:client"), "%s: a re-sent client packet was not reported: %v", kind, r1.Findings)
+			t2 := append([]sim.Event{}, o.log...)
+			t2[firstS2C].Fate = sim.Drop
+			r2 := wiremon.Analyze(t2, o.keylog, wiremon.Params{})
+			explore.Must(has(r2, "wire:ack-of-packet-not-received:client"), "%s: an ACK for a dropped server datagram was not reported: %v", kind, r2.Findings)
+			r3 := wiremon.Analyze(o.log, nil, wiremon.Params{})
+			explore.Must(r3.Opened > 0 && r3.Opened < clean.Opened, "%s: without the key log %d packets open (with: %d)", kind, r3.Opened, clean.Opened)
+			rep.Evaluations += 4
+			rep.Outcomes = append(rep.Outcomes, kind+": resent packet reported", kind+": ACK of dropped datagram reported", kind+": without key log only Initial packets open")
+			rep.Traces += int64(clean.Opened)
+		}
+		rep.OutcomesN = int64(len(rep.Outcomes))
+		rep.Rule = "self-test of the passive wire monitor: the log of a real fault-free run (plain and Chrome_115 client) is tampered with (a client packet sent twice, an acknowledged server datagram marked as dropped, key log withheld); every tampering must be reported, the untampered log must be clean"
+		rep.Bound = "3 tamperings x 2 client kinds"
+		return rep
+	}}
 }
 
 func TestVerifC01(t *testing.T) {
 	sim.InitCerts(t)
 	kinds := []string{"plain", "chrome115"}
 	parts := []explore.Part{
+		c01MonitorSelfTest(t),
 		c01Part(t, "k1-all-datagrams", func(e explore.Env) ([]c01Config, string) {
 			var cfgs []c01Config
 			for si := range c01Scenarios {
